@@ -231,7 +231,9 @@ def _run(case, model):
                 ecomps[t] = comp
         else:
             raise InvalidCase(op)
-        verify(where)
+        look = ("every", "every", "sparse", "end")[len(case["ops"]) % 4]      # how often all classes are inspected between operations
+        if look == "every" or (look == "sparse" and k % 3 == 2) or k == len(case["ops"]) - 1:
+            verify(where)
     return {"nontrivial": class_change_with_relatives and inst_after_tag_change,
             "labels": sorted(labels) + (["shared-bases-mutated"] if shared else [])}
 
